@@ -955,7 +955,10 @@ pub fn run_c09p(o: &crate::Opts) {
     let mut sink = crate::Sink::new(o);
     let tmp = TmpDir::new(&format!("c09p-{}", o.shard));
     let dir = tmp.0.clone();
-    let one = |dir: &Path, src: &str, script: &str, inp: &[u8], stack: bool, minimal: bool| -> String {
+    // `via_stdin`: the script (ending in `quit`) arrives on standard input, immediately followed —
+    // after the `;` or newline that ends `quit` — by the program's own input; the command reader
+    // must leave every byte after that delimiter to the program
+    let one = |dir: &Path, src: &str, script: &str, inp: &[u8], stack: bool, minimal: bool, via_stdin: Option<char>| -> String {
         std::fs::write(dir.join("d.asm"), src).unwrap();
         let mut common: Vec<&str> = Vec::new();
         if minimal {
@@ -964,9 +967,21 @@ pub fn run_c09p(o: &crate::Opts) {
         if stack {
             common.extend_from_slice(&["-f", "stack"]);
         }
-        let mut a = vec!["debug", "d.asm", "--command", script];
-        a.extend_from_slice(&common);
-        let d = spawn(dir, &a, inp, 15000);
+        let d = match via_stdin {
+            None => {
+                let mut a = vec!["debug", "d.asm", "--command", script];
+                a.extend_from_slice(&common);
+                spawn(dir, &a, inp, 15000)
+            }
+            Some(delim) => {
+                let mut a = vec!["debug", "d.asm"];
+                a.extend_from_slice(&common);
+                let mut all = script.as_bytes().to_vec();
+                all.push(delim as u8);
+                all.extend_from_slice(inp);
+                spawn(dir, &a, &all, 15000)
+            }
+        };
         let mut a = vec!["run", "d.asm"];
         a.extend_from_slice(&common);
         let r = spawn(dir, &a, inp, 15000);
@@ -991,7 +1006,12 @@ pub fn run_c09p(o: &crate::Opts) {
                 let src = String::from_utf8(unhex(f.get(3)?)?).ok()?;
                 let script = String::from_utf8(unhex(f.get(4)?)?).ok()?;
                 let inp = unhex(f.get(5)?)?;
-                Some(one(&dir, &src, &script, &inp, stack, minimal))
+                let via = match f.get(6) {
+                    Some(&"S3b") => Some(';'),
+                    Some(&"S0a") => Some('\n'),
+                    _ => None,
+                };
+                Some(one(&dir, &src, &script, &inp, stack, minimal, via))
             })()
             .unwrap_or_else(|| "bad-request".into());
             sink.put(line, &obs);
@@ -1003,6 +1023,7 @@ pub fn run_c09p(o: &crate::Opts) {
     let total: u64 = if o.thorough { 3000 } else { 160 };
     let per = total / o.nshards as u64;
     let mut n_min = 0u64;
+    let mut n_stdin = 0u64;
     for _ in 0..per {
         let p = loop {
             let p = gen_structured(&mut rng);
@@ -1012,12 +1033,23 @@ pub fn run_c09p(o: &crate::Opts) {
         };
         let n = p.words.len();
         let mut c = crate::dbg::decorate(&mut rng, &p, "D09", vec![], 0);
+        // one pair in three: script on standard input, the program's input right behind it
+        let via = match rng.below(6) {
+            0 => Some(';'),
+            1 => Some('\n'),
+            _ => None,
+        };
         let mut lines: Vec<String> = Vec::new();
         for _ in 0..rng.below(10) {
             let cmd = crate::dbg::rand_nonmutating(&mut rng, p.orig, n, &c.labels);
+            // with the script on standard input, an instruction executed before `quit` would read
+            // the rest of the script as its input: only inspection commands then
+            if via.is_some() && cmd.resumes() {
+                continue;
+            }
             lines.push(crate::dbg::spell_cmd(&mut rng, &cmd));
         }
-        if !p.inp.is_empty() || rng.chance(1, 2) {
+        if !p.inp.is_empty() || via.is_some() || rng.chance(1, 2) {
             lines.push("quit".into());
         }
         c.cmds = vec![];
@@ -1028,15 +1060,19 @@ pub fn run_c09p(o: &crate::Opts) {
             n_min += 1;
         }
         let src = c.source();
-        let obs = one(&dir, &src, &script, &p.inp, p.stack, minimal);
+        let obs = one(&dir, &src, &script, &p.inp, p.stack, minimal, via);
         if obs == "skip-timeout" {
             continue;
         }
+        if via.is_some() {
+            n_stdin += 1;
+        }
         sink.put(
-            &format!("Z09 {} {} {} {} {}", p.stack as u8, minimal as u8, hex(src.as_bytes()), hex(script.as_bytes()), hex(&p.inp)),
+            &format!("Z09 {} {} {} {} {} {}", p.stack as u8, minimal as u8, hex(src.as_bytes()), hex(script.as_bytes()), hex(&p.inp),
+                match via { Some(';') => "S3b", Some(_) => "S0a", None => "A" }),
             &obs,
         );
     }
     let n_cases = sink.n;
-    sink.finish(o, &format!("{{\"cases\":{},\"process_pairs_minimal\":{},\"samples\":[]}}", n_cases, n_min));
+    sink.finish(o, &format!("{{\"cases\":{},\"process_pairs_minimal\":{},\"script_on_stdin_before_program_input\":{},\"samples\":[]}}", n_cases, n_min, n_stdin));
 }
